@@ -49,6 +49,10 @@ type Scenario struct {
 	ReqBodyDelayNS int64 `json:"req_body_delay_ns,omitempty"`
 	ReqWindow      int   `json:"req_window,omitempty"` // mem: bytes buffered client→server (0: unbounded)
 	RespWindow     int   `json:"resp_window,omitempty"`
+	// HandlerKind, if set and different from Cfg.Kind, mounts a handler of that
+	// RPC kind at the procedure the client calls (a server that answers a
+	// unary call with a stream of messages, say).
+	HandlerKind string `json:"handler_kind,omitempty"`
 	// LingerRequest (mem): the transport keeps swallowing request bytes after
 	// the response is complete instead of closing the request body.
 	LingerRequest bool `json:"linger_request,omitempty"`
@@ -167,6 +171,10 @@ func Run(tt *testing.T, s Scenario) (*Trace, error) {
 	log := &prog.HLog{}
 	hp := s.Handler
 	var h http.Handler = prog.NewHandler(s.Cfg.Kind, &hp, log, s.Cfg.HandlerOptions()...)
+	if s.HandlerKind != "" && s.HandlerKind != s.Cfg.Kind {
+		// a handler of another RPC kind answers at the procedure the client calls
+		h = prog.NewHandlerAt(prog.Procedure(s.Cfg.Kind), s.HandlerKind, &hp, log, s.Cfg.HandlerOptions()...)
+	}
 	if s.HandlerExitDelayNS > 0 {
 		inner := h
 		h = http.HandlerFunc(func(w http.ResponseWriter, r *http.Request) {
